@@ -10,7 +10,7 @@ static const char ATTRS[][C02_A] = { "resume", "max", "id", "location", "h", "pr
 static const char VALS[][C02_A] = { "true", "false", "zzzz" };
 C02_VOCAB(V, TAGS, NSS, ATTRS, VALS)
 
-#define SM_ENTRY(fn, T, N1, N2, WARM) extern "C" void fn() { c02_warm_QXmppStreamManagement(); WARM; bool admitted = false; { C02Tree<N1, N2> t; t.build(V); C02_FIXPOINT_OPT(T, t.root.el, admitted) } \
+#define SM_ENTRY(fn, T, N1, N2, WARM) extern "C" void fn() { vp_c02_init(); c02_warm_QXmppStreamManagement(); WARM; bool admitted = false; { C02Tree<N1, N2> t; t.build(V); C02_FIXPOINT_OPT(T, t.root.el, admitted) } \
     vp_assume(admitted); /* the harness end (witness) is reachable only through the admitted path: the fix-point part is not vacuous */ }
 SM_ENTRY(h_sm_enable, SmEnable, 1, 0, (void)0)
 SM_ENTRY(h_sm_enabled, SmEnabled, 1, 0, (void)0)
